@@ -229,6 +229,15 @@ def check_exec(kind, node, mi, mo, h, runner="sync"):
                 for i, o in enumerate(mo.order):
                     if res.values[mo.current_of(o)][1] != i:
                         out.append(("graphnode-result-position", f"output {mo.current_of(o)} does not hold original output {o}"))
+            # the same name bound on the ENCLOSING graph under its current external name overrides the inner binding
+            # (and an enclosing binding of the defaulted input overrides the inner default)
+            for orig, tok in (("z", ("outer", "z")), ("y", ("outer", "y"))):
+                n1 = len(h.calls)
+                gb = g.bind(**{mi.current_of(orig): tok})
+                run_sync(gb, dict(ins), h)
+                got = h.calls[n1].args.get(orig)
+                if got != tok:
+                    out.append(("graphnode-outer-binding", f"enclosing graph binds {mi.current_of(orig)} (inner parameter {orig}) to {jsonable(tok)} but the inner function received {jsonable(got)}"))
         elif kind == "graph-map2":
             xs, ys = [("i", 0), ("i", 1)], [("j", 0), ("j", 1), ("j", 2)]
             res = run_sync(g, {mi.current_of("x"): list(xs), mi.current_of("y"): list(ys)}, h)
